@@ -348,6 +348,14 @@ def _run_loss(case, lose_at):
                     c['done'] = True
                     body = ('s', ['failed']) if op[1] % 2 else ('', [])
                     N.deliver(rig.conn, R.encode_message(3, 903, {5: c['serial'], 4: 'org.verif.Error.E'}, *body))
+            elif k == 'call_noreply':
+                # fire and forget, with a (pointless but legal) deadline: it concludes at once and leaves nothing behind
+                r = []
+                rig.conn.callRemote('/o', 'Notify', interface='a.b', destination='c.d', expectReply=False,
+                                    timeout=op[1]).addBoth(r.append)
+                rig.sent_messages()
+                if r != [None]:
+                    out.append(Disc('loss.no-reply-call-result', repr(r)))
             elif k == 'cancel_call':
                 # the caller gives up on a pending call itself (Deferred.cancel()): the call is over for the caller, and
                 # whatever the library still keeps for it must go away with the connection like everything else
@@ -535,7 +543,7 @@ def loss_case(draw, tier):
     ncalls = 0
     for _ in range(n):
         k = draw(st.sampled_from(['call', 'call', 'reply', 'error_reply', 'conn_cb', 'conn_cb_cancel', 'proxy', 'proxy', 'proxy_cb',
-                                  'proxy_cb', 'proxy_cb_cancel', 'proxy_signal', 'advance', 'cancel_call']))
+                                  'proxy_cb', 'proxy_cb_cancel', 'proxy_signal', 'advance', 'cancel_call', 'call_noreply']))
         if k == 'call':
             if ncalls >= 4:
                 continue
@@ -547,6 +555,8 @@ def loss_case(draw, tier):
                         draw(st.sampled_from(['/obj', '/obj', '/other']))])
         elif k == 'advance':
             ops.append(['advance', draw(st.sampled_from([1, 4, 6, 30]))])
+        elif k == 'call_noreply':
+            ops.append([k, draw(st.sampled_from([None, 5, 0, 30]))])
         elif k in ('reply', 'error_reply', 'conn_cb_cancel', 'proxy_cb', 'proxy_cb_cancel', 'proxy_signal', 'cancel_call'):
             ops.append([k, draw(st.integers(0, 5))])
         else:
@@ -562,6 +572,8 @@ def enum_loss(tier):
                        ['proxy_cb', 0], ['proxy_cb_cancel', 1]]}
     yield {'ops': [['call', None], ['call', 5], ['call', 20], ['call', 1], ['advance', 4], ['reply', 0], ['conn_cb'],
                    ['conn_cb'], ['conn_cb_cancel', 0]]}
+    # fire-and-forget calls with and without a deadline next to ordinary ones
+    yield {'ops': [['call_noreply', 5], ['call', 10], ['call_noreply', None], ['call_noreply', 30], ['conn_cb']]}
     # the caller cancels pending calls (with and without deadline) before the connection goes down
     yield {'ops': [['call', 10], ['call', 10], ['call', None], ['cancel_call', 0], ['advance', 1], ['cancel_call', 1],
                    ['conn_cb'], ['call', 0]]}
